@@ -151,7 +151,7 @@ def _all(lang):
 ASSUMPTIONS = (
     "documented depth = 1 + number of documented constructs enclosing the deepest statement; an if/elif/else chain is one construct",
     "limits >= 1 (non-positive limits are C05's subject)",
-    "Python match/case is not generated (documentation does not say whether it is one level or two)",
+    "Python match/case counts as one construct (like switch/case and Rust match)",
     "nested functions are generated with construct-free bodies only",
 )
 
